@@ -319,6 +319,15 @@ def check(pid, tier, replay=None):
             failed.append("forbidden construct in Lean sources"); notes += forb[:10]
         for t in failed:
             broken.append(dict(kind="proof-obligation", name=t))
+        if failed and cfg.get("fact_evidence"):
+            # what the extractor saw (e.g. the def chain of every VIEW): goes into the replay file
+            try:
+                ev = json.load(open(os.path.join(WORK, "facts.json")))
+                for k in cfg["fact_evidence"].split("."):
+                    ev = ev[k]
+                notes += [cfg["fact_evidence"] + ": " + json.dumps(e) for e in (ev or [])[:20]]
+            except Exception as e:
+                notes.append(f"fact evidence unavailable: {e}")
 
         # ---- streams and oracles
         jobs = []
